@@ -7,6 +7,7 @@ import (
 	"fmt"
 	"math/big"
 	"os"
+	"path/filepath"
 	"strings"
 
 	otr3 "github.com/coyim/otr3"
@@ -20,7 +21,12 @@ type sexpVec struct {
 	Pos  int    `json:"pos"`
 	End  bool   `json:"end"`
 	OK   bool   `json:"ok"`
-	Accs []struct {
+	// export vectors
+	Name     string `json:"name"`
+	Protocol string `json:"protocol"`
+	P        string `json:"p"`
+	Out      string `json:"out"`
+	Accs     []struct {
 		Name     string            `json:"name"`
 		Protocol string            `json:"protocol"`
 		Params   map[string]string `json:"params"`
@@ -70,7 +76,9 @@ func cmdSexpCheck(args []string) int {
 		return 2
 	}
 	defer f.Close()
-	viol, reads, imports := 0, 0, 0
+	viol, reads, imports, exports := 0, 0, 0, 0
+	dir, _ := os.MkdirTemp("", "verif-sexp-")
+	defer os.RemoveAll(dir)
 	report := func(kind, detail string) {
 		viol++
 		if viol <= 12 {
@@ -99,6 +107,22 @@ func cmdSexpCheck(args []string) int {
 				pos := len(v.In) - r.Buffered()
 				if got := renderSexp(val); got != v.V || end != v.End || pos != v.Pos {
 					report("read", fmt.Sprintf("in=%q expected value=%q end=%v pos=%d, got value=%q end=%v pos=%d", v.In, v.V, v.End, v.Pos, got, end, pos))
+				}
+			case "export":
+				exports++
+				hx := func(s string) *big.Int { b, _ := new(big.Int).SetString(s, 16); return b }
+				k := &otr3.DSAPrivateKey{}
+				k.PrivateKey.P, k.PrivateKey.Q, k.PrivateKey.G, k.PrivateKey.Y, k.PrivateKey.X = hx(v.P), hx("2"), hx("3"), hx("4"), hx("5")
+				k.DSAPublicKey.PublicKey = k.PrivateKey.PublicKey
+				acc := &otr3.Account{Name: v.Name, Protocol: v.Protocol, Key: k}
+				fn := filepath.Join(dir, "export")
+				if err := otr3.ExportKeysToFile([]*otr3.Account{acc, acc}, fn); err != nil {
+					report("export", fmt.Sprintf("name=%q: %v", v.Name, err))
+					return
+				}
+				got, _ := os.ReadFile(fn)
+				if string(got) != v.Out {
+					report("export", fmt.Sprintf("name=%q protocol=%q p=%s: the key file written differs from the specification's:\n%s\nexpected:\n%s", v.Name, v.Protocol, v.P, got, v.Out))
 				}
 			case "import":
 				imports++
@@ -146,7 +170,7 @@ func cmdSexpCheck(args []string) int {
 			}
 		}()
 	}
-	fmt.Printf("SEXPCHECK vectors=%d reads=%d imports=%d violations=%d\n", reads+imports, reads, imports, viol)
+	fmt.Printf("SEXPCHECK vectors=%d reads=%d imports=%d exports=%d violations=%d\n", reads+imports+exports, reads, imports, exports, viol)
 	if viol > 0 {
 		return 1
 	}
